@@ -13,53 +13,61 @@ Record input := {
   i_chunkings : list (list bytes);
   i_spec : spec;
   i_int : list (str * Z);        (* CPython's int() on the candidate retry values of this stream *)
+  i_int_fail : list str;         (* ASCII candidates on which int() raised ValueError *)
   i_json : list (str * N)        (* CPython's json.loads on the candidate NDJSON lines: id of the canonical dump *)
 }.
 
 Record obs := {
-  o_bad : bool;                  (* stream is not well-formed UTF-8 (then only o_bytes is compared) *)
+  o_bad : bool;                  (* strict UTF-8 decoding of the stream would raise (everything is still compared: errors="replace") *)
   o_bytes : list bytes;          (* iter_bytes *)
   o_texts : list str;            (* Response.aiter_text *)
   o_lines : list str;            (* Response.aiter_lines *)
   o_sse : list event;            (* iter_sse *)
   o_tev : list str;              (* iter_sse_events_text *)
-  o_nd : list N * bool           (* iter_ndjson: items (ids), raised? *)
+  o_nd : list N * bool;          (* iter_ndjson: items (ids), raised? *)
+  (* END-TO-END, through a generated client (server = MockTransport with the same async chunk iterator):
+     items of the text/event-stream operation, of the application/x-ndjson operation (both generated as
+     `async for chunk in iter_sse_events_text(response): yield json.loads(chunk)`), and of the octet-stream operation
+     (`async for chunk in iter_bytes(response)`).  None = this case was not driven end to end. *)
+  o_e2e : option ((list N * bool) * (list N * bool) * list bytes)
 }.
 
 (* compact form written by the harness: per-chunking bytes observation + the part shared by all chunkings *)
 Definition expand (bl : list (list bytes)) (bad : bool) (texts : list (list str)) (lines : list str)
-    (sse : list event) (tev : list str) (nd : list N * bool) : list obs :=
+    (sse : list event) (tev : list str) (nd : list N * bool)
+    (e2e : option ((list N * bool) * (list N * bool) * list bytes)) : list obs :=
   map (fun bt => {| o_bad := bad; o_bytes := fst bt; o_texts := snd bt; o_lines := lines; o_sse := sse;
-                    o_tev := tev; o_nd := nd |}) (combine bl texts).
+                    o_tev := tev; o_nd := nd; o_e2e := e2e |}) (combine bl texts).
 
 Definition lookup_int (tbl : list (str * Z)) (s : str) : option Z := alookup s tbl.
 Definition lookup_json (tbl : list (str * N)) (s : str) : option N := alookup s tbl.
 
 Definition strs_eqb := list_eqb str_eqb.
-Definition get {A} (o : option (list A)) : list A := match o with Some l => l | None => [] end.
 
 Definition model_one (i : input) (cs : list bytes) : obs :=
   let pi := lookup_int (i_int i) in
   let js := lookup_json (i_json i) in
-  match aiter_lines cs with
-  | None => {| o_bad := true; o_bytes := iter_bytes cs; o_texts := []; o_lines := []; o_sse := []; o_tev := [];
-               o_nd := ([], false) |}
-  | Some ls =>
-      {| o_bad := false; o_bytes := iter_bytes cs; o_texts := get (aiter_text cs); o_lines := ls;
-         o_sse := get (iter_sse pi cs); o_tev := get (iter_sse_events_text pi cs);
-         o_nd := match iter_ndjson N js cs with Some r => r | None => ([], false) end |}
-  end.
+  {| o_bad := negb (utf8_wf (concat cs)); o_bytes := iter_bytes cs; o_texts := aiter_text cs;
+     o_lines := aiter_lines cs; o_sse := iter_sse pi cs; o_tev := iter_sse_events_text pi cs;
+     o_nd := iter_ndjson N js cs;
+     o_e2e := Some (e2e_events pi N js cs, e2e_events pi N js cs, e2e_bytes cs) |}.
 
 Definition model_obs (i : input) : list obs := map (model_one i) (i_chunkings i).
 
-Definition obs_diag (a b : obs) : list bool :=   (* true = differs *)
-  if o_bad a || o_bad b then
-    [negb (Bool.eqb (o_bad a) (o_bad b)); negb (list_eqb str_eqb (o_bytes a) (o_bytes b))]
-  else
-    [false; negb (list_eqb str_eqb (o_bytes a) (o_bytes b));
-     negb (strs_eqb (o_texts a) (o_texts b)); negb (strs_eqb (o_lines a) (o_lines b));
-     negb (list_eqb event_eqb (o_sse a) (o_sse b)); negb (strs_eqb (o_tev a) (o_tev b));
-     negb (pair_eqb (list_eqb N.eqb) Bool.eqb (o_nd a) (o_nd b))].
+Definition nd_eqb := pair_eqb (list_eqb N.eqb) Bool.eqb.
+Definition e2e_differs (m o : obs) : bool :=
+  match o_e2e o, o_e2e m with
+  | None, _ => false
+  | Some (a1, a2, ab), Some (b1, b2, bb) =>
+      (* events exactly; bytes by concatenation (how httpx cuts an already-read body is not part of the property) *)
+      negb (nd_eqb a1 b1 && nd_eqb a2 b2 && str_eqb (concat ab) (concat bb))
+  | Some _, None => true
+  end.
+Definition obs_diag (a b : obs) : list bool :=   (* a = model, b = implementation; true = differs *)
+  [negb (Bool.eqb (o_bad a) (o_bad b)); negb (list_eqb str_eqb (o_bytes a) (o_bytes b));
+   negb (strs_eqb (o_texts a) (o_texts b)); negb (strs_eqb (o_lines a) (o_lines b));
+   negb (list_eqb event_eqb (o_sse a) (o_sse b)); negb (strs_eqb (o_tev a) (o_tev b));
+   negb (nd_eqb (o_nd a) (o_nd b)); e2e_differs a b].
 Definition obs_eqb (a b : obs) : bool := negb (existsb (fun x => x) (obs_diag a b)).
 
 (* the sender's text really is the stream (ties the harness encoder to Streaming.encode) *)
@@ -69,15 +77,21 @@ Definition spec_ok (i : input) : bool :=
   | cs :: _ =>
       match i_spec i with
       | SRaw => true
-      | SSse t k bs => opt_eqb str_eqb (utf8_decode (concat cs)) (Some (encode t k bs))
+      | SSse t k bs => str_eqb (utf8_decode (concat cs)) (encode t k bs)
       | SNd t k ls =>
-          opt_eqb str_eqb (utf8_decode (concat cs))
-            (Some (match k with
-                   | TNone => join (term_s t) ls
-                   | _ => enc_lines t ls
-                   end))
+          str_eqb (utf8_decode (concat cs))
+            (match k with
+             | TNone => join (term_s t) ls
+             | _ => enc_lines t ls
+             end)
       end
   end.
+
+(* py_int_ascii agrees with CPython's int() on every ASCII candidate of the case *)
+Definition int_ok (i : input) : bool :=
+  forallb (fun kv => if forallb is_ascii (fst kv) then opt_eqb Z.eqb (py_int_ascii (fst kv)) (Some (snd kv)) else true)
+          (i_int i)
+  && forallb (fun k => opt_eqb Z.eqb (py_int_ascii k) None) (i_int_fail i).
 
 (* all chunkings are chunkings of one stream *)
 Definition same_stream (i : input) : bool :=
@@ -104,15 +118,16 @@ Fixpoint or_diag (a b : list bool) : list bool :=
 Definition diag (c : input * list obs) : N :=
   let m := model_obs (fst c) in
   let d := fold_left or_diag (map (fun mo => obs_diag (fst mo) (snd mo)) (combine m (snd c))) [] in
-  bits_of (d ++ repeat false (7 - length d)%nat
+  bits_of (d ++ repeat false (8 - length d)%nat
              ++ [negb (spec_ok (fst c)); negb (same_stream (fst c));
-                 negb (Nat.eqb (length m) (length (snd c)))]) 256.
+                 negb (Nat.eqb (length m) (length (snd c))); negb (int_ok (fst c))]) 256.
 
 (* bit0: model <> implementation (any chunking, any observable, or the spec/stream sanity checks);
-   bit1: guard_F18a false; bit2: unused (was guard_F18b, fixed); bit3: outside the encoding's domain;
-   bits 8..: diagnostics — 8 bad-flag, 9 bytes, 10 texts, 11 lines, 12 sse, 13 events_text, 14 ndjson,
-   15 harness encoder <> Streaming.encode, 16 chunkings of different streams, 17 arity *)
+   bit1: guard_F18a false; bit2: unused (was F18b, then F18c: both fixed); bit3: outside the encoding's domain;
+   bits 8..: diagnostics — 8 ill-formed flag, 9 bytes, 10 texts, 11 lines, 12 sse, 13 events_text, 14 ndjson,
+   15 end-to-end (generated client), 16 harness encoder <> Streaming.encode, 17 chunkings of different streams, 18 arity,
+   19 py_int_ascii <> CPython's int() on an ASCII candidate *)
 Definition run (cases : list (input * list obs)) : list N :=
   map (fun c =>
-         code (fun m o => all_eqb m o && spec_ok (fst c) && same_stream (fst c)) model_obs guards c
+         code (fun m o => all_eqb m o && spec_ok (fst c) && same_stream (fst c) && int_ok (fst c)) model_obs guards c
          + diag c) cases.
